@@ -7,6 +7,7 @@ import Nlmodel.Model.Value
 import Nlmodel.Proofs.Lemmas.FloatRound
 import Nlmodel.Proofs.Lemmas.FloatRem
 import Nlmodel.Proofs.Lemmas.Utf8All
+import Nlmodel.Proofs.Lemmas.FloatSpecialTable
 namespace Nl
 namespace C06
 
@@ -311,6 +312,59 @@ theorem C06_string_comparisons_on_bytes (op : BinOp) (x y : Text) (h : op.isArit
     binopCore op (.str x) (.str y) =
       .ok (.bool (cmpBy op (Utf8.byteLt (Utf8.encode x) (Utf8.encode y)) (Utf8.byteEq (Utf8.encode x) (Utf8.encode y)))) :=
   Utf8.binopCore_str_bytes op x y h h'
+
+/-! ### floats: the SPECIAL values (session 7, `Lemmas/FloatSpecial*.lean`; audit item 9)
+
+The theorems above are for finite operands.  For ALL bit patterns each operation is characterised by a complete case table over
+(NaN, infinite, zero, sign), exactly the IEEE-754 rules: NaN propagates; `inf - inf`, `0 * inf`, `inf / inf`, `0 / 0`, `x % 0`,
+`inf % y` are NaN; `x / 0` is an infinity with the xor of the signs; `x % inf = x`; a remainder has the sign of the dividend also
+when it is zero; every comparison with a NaN is false except `!=`; `+0 == -0`; signed-zero results of sums, products, quotients. -/
+
+open F64 FloatSpecial in
+theorem C06_float_add_all_cases (x y : F64.Bits) : add x y =
+    if isNaN x || isNaN y then canonNaN
+    else if isInf x && isInf y then (if isNeg x = isNeg y then inf (isNeg x) else canonNaN)
+    else if isInf x then inf (isNeg x) else if isInf y then inf (isNeg y)
+    else if F64R.sval x + F64R.sval y = 0 then zero (isNeg x && isNeg y)
+    else ofRat (decide (F64R.sval x + F64R.sval y < 0)) (F64R.sval x + F64R.sval y).natAbs (2 ^ 1074) :=
+  add_cases x y
+
+open F64 FloatSpecial in
+theorem C06_float_mul_all_cases (x y : F64.Bits) : mul x y =
+    if isNaN x || isNaN y then canonNaN
+    else if isInf x || isInf y then (if isZero x || isZero y then canonNaN else inf (isNeg x != isNeg y))
+    else ofRat (isNeg x != isNeg y) (F64R.mag x * F64R.mag y) (2 ^ 1074 * 2 ^ 1074) :=
+  mul_cases x y
+
+open F64 FloatSpecial in
+theorem C06_float_div_all_cases (x y : F64.Bits) : div x y =
+    if isNaN x || isNaN y then canonNaN
+    else if isInf x then (if isInf y then canonNaN else inf (isNeg x != isNeg y))
+    else if isInf y then zero (isNeg x != isNeg y)
+    else if isZero y then (if isZero x then canonNaN else inf (isNeg x != isNeg y))
+    else ofRat (isNeg x != isNeg y) (F64R.mag x) (F64R.mag y) :=
+  div_cases x y
+
+open F64 FloatSpecial in
+theorem C06_float_rem_all_cases (x y : F64.Bits) : rem x y =
+    if isNaN x || isNaN y || isInf x || isZero y then canonNaN
+    else if isInf y then x
+    else ofRat (isNeg x) (F64R.mag x % F64R.mag y) (2 ^ 1074) :=
+  rem_cases x y
+
+/-- the six comparison OPERATORS of the language on floats with a NaN operand: all false, `!=` true -/
+theorem C06_float_comparisons_with_nan {x y : F64.Bits} (h : F64.isNaN x = true ∨ F64.isNaN y = true) :
+    binopCore .lt (.float x) (.float y) = .ok (.bool false) ∧ binopCore .lte (.float x) (.float y) = .ok (.bool false) ∧
+    binopCore .gt (.float x) (.float y) = .ok (.bool false) ∧ binopCore .gte (.float x) (.float y) = .ok (.bool false) ∧
+    binopCore .eq (.float x) (.float y) = .ok (.bool false) ∧ binopCore .neq (.float x) (.float y) = .ok (.bool true) :=
+  FloatSpecial.S5_binopCore_nan h
+
+/-- on non-NaN floats the comparisons are a trichotomy (exactly one of <, ==, > holds), -inf below and +inf above every finite value,
+    and the two zeros are equal -/
+theorem C06_float_order_trichotomy {x y : F64.Bits} (hx : F64.isNaN x = false) (hy : F64.isNaN y = false) :
+    (F64.lt x y = true ∧ F64.eq x y = false ∧ F64.lt y x = false) ∨ (F64.lt x y = false ∧ F64.eq x y = true ∧ F64.lt y x = false) ∨
+    (F64.lt x y = false ∧ F64.eq x y = false ∧ F64.lt y x = true) :=
+  FloatSpecial.S5_trichotomy hx hy
 
 end C06
 end Nl
